@@ -29,6 +29,23 @@ func isByteSlice(t types.Type) bool {
 	return ok && b.Kind() == types.Uint8
 }
 
+// hasByteSliceField: a struct (or pointer to struct) with a []byte field.
+func hasByteSliceField(t types.Type) bool {
+	if pt, ok := t.Underlying().(*types.Pointer); ok {
+		t = pt.Elem()
+	}
+	st, ok := t.Underlying().(*types.Struct)
+	if !ok {
+		return false
+	}
+	for i := 0; i < st.NumFields(); i++ {
+		if isByteSlice(st.Field(i).Type()) {
+			return true
+		}
+	}
+	return false
+}
+
 // goPackages lists directories under root holding non-test Go files of the library proper.
 func goPackages(root string) []string {
 	var dirs []string
@@ -65,6 +82,15 @@ func rootParam(info *types.Info, e ast.Expr, params map[types.Object]bool, alias
 		return rootParam(info, e.X, params, aliases)
 	case *ast.SliceExpr:
 		return rootParam(info, e.X, params, aliases)
+	case *ast.SelectorExpr:
+		// opts.Field where opts is a struct-typed parameter (an options struct passed by
+		// value or by pointer): the byte slice inside it is still the caller's memory
+		if id, ok := e.X.(*ast.Ident); ok {
+			o := info.Uses[id]
+			if params[o] && isByteSlice(info.Types[e].Type) {
+				return o
+			}
+		}
 	case *ast.Ident:
 		o := info.Uses[e]
 		if o == nil {
@@ -113,7 +139,7 @@ func scanAliasSites(root string) (sites []aliasSite, framed int, err error) {
 				params := map[types.Object]bool{}
 				for _, fl := range fd.Type.Params.List {
 					for _, n := range fl.Names {
-						if o := p.info.Defs[n]; o != nil && isByteSlice(o.Type()) {
+						if o := p.info.Defs[n]; o != nil && (isByteSlice(o.Type()) || hasByteSliceField(o.Type())) {
 							params[o] = true
 						}
 					}
@@ -170,7 +196,7 @@ func scanAliasSites(root string) (sites []aliasSite, framed int, err error) {
 					case *ast.CallExpr:
 						if id, ok := n.Fun.(*ast.Ident); ok && id.Name == "append" && len(n.Args) >= 1 {
 							if _, isB := p.info.Uses[id].(*types.Builtin); isB {
-								if rp := rootParam(p.info, n.Args[0], params, aliases); rp != nil && isByteSlice(rp.Type()) {
+								if rp := rootParam(p.info, n.Args[0], params, aliases); rp != nil && isByteSlice(p.info.Types[n.Args[0]].Type) {
 									add("append-on-parameter", n, n.Args[0])
 								}
 							}
@@ -202,8 +228,17 @@ func scanAliasSites(root string) (sites []aliasSite, framed int, err error) {
 							if pt, isP := t.(*types.Pointer); isP {
 								t = pt.Elem()
 							}
-							if nt, isN := t.(*types.Named); !isN || nt.Obj().Pkg() != p.pkg {
+							nt, isN := t.(*types.Named)
+							if !isN || nt.Obj().Pkg() != p.pkg {
 								return true
+							}
+							// per-stream objects (io.Writer / io.Reader implementations) are the
+							// per-call state of one stream, not keys, handles or primitives
+							ms := types.NewMethodSet(types.NewPointer(nt))
+							for _, mn := range []string{"Write", "Read", "Close"} {
+								if ms.Lookup(p.pkg, mn) != nil {
+									return true
+								}
 							}
 						}
 						for _, el := range n.Elts {
